@@ -50,6 +50,15 @@ class LocalHashFileDB(HashFileDB):
         # being ~5.5 times faster.
         return f"{self.path}{os.sep}{oid[0:2]}{os.sep}{oid[2:]}"
 
+    def exists(self, oid: str) -> bool:
+        # like oids_exist(): an unprotected object (e.g. an empty file left behind by
+        # an interrupted link/copy attempt) is only trusted after an integrity check
+        try:
+            self.check(oid)
+        except (FileNotFoundError, ObjectFormatError):
+            return False
+        return True
+
     def oids_exist(self, oids, jobs=None, progress=noop):
         ret = []
         progress = partial(progress, "querying", len(oids))
